@@ -700,12 +700,135 @@ void playout(ref::Game& g, Rng& r, int plies, double bias, bool avoid_terminal)
     }
 }
 
+// queen-side castling right, c- and d-file squares of the home rank empty, an enemy knight or bishop on b1/b8: castling
+// long is not legal (the rook would have to pass over the piece), although king path and target squares are free
+std::string gen_castle_enemy_on_b_file_fen(Rng& r)
+{
+    for (int attempt = 0; attempt < 300; ++attempt)
+    {
+        ref::Board b;
+        std::memset(b.sq, 0, sizeof b.sq);
+        b.ep = -1;
+        b.halfmove = int(r.below(10));
+        b.fullmove = int(r.range(15, 50));
+        int my = int(r.below(2)), op = 1 - my;
+        int home = my == 0 ? 0 : 7, far = my == 0 ? 7 : 0;
+        b.sq[ref::sq_of(4, home)] = ref::mk(my, ref::KIND_K);
+        b.sq[ref::sq_of(0, home)] = ref::mk(my, ref::KIND_R);
+        b.sq[ref::sq_of(1, home)] = ref::mk(op, r.chance(0.5) ? ref::KIND_N : ref::KIND_B);
+        b.castling = my == 0 ? 2 : 8;
+        if (r.chance(0.4)) { b.sq[ref::sq_of(7, home)] = ref::mk(my, ref::KIND_R); b.castling |= my == 0 ? 1 : 4; }
+        // enemy king (sometimes where castling long would hurt it), pawns, a few pieces
+        int ekf = r.chance(0.5) ? 3 : int(r.below(8));
+        b.sq[ref::sq_of(ekf, far)] = ref::mk(op, ref::KIND_K);
+        for (int f = 0; f < 8; ++f)
+        {
+            if (r.chance(0.5)) b.sq[ref::sq_of(f, my == 0 ? 1 : 6)] = ref::mk(my, ref::KIND_P);
+            if (r.chance(0.5) && f != 3) b.sq[ref::sq_of(f, my == 0 ? 6 : 1)] = ref::mk(op, ref::KIND_P);
+        }
+        int extra = int(r.range(0, 4));
+        for (int i = 0; i < extra; ++i)
+        {
+            int q = ref::sq_of(int(r.below(8)), int(r.range(2, 5)));
+            if (b.sq[q]) continue;
+            b.sq[q] = ref::mk(r.chance(0.5) ? my : op, int(r.range(ref::KIND_N, ref::KIND_Q)));
+        }
+        b.side = my;
+        std::string fen = b.fen();
+        if (!fen_is_sane(fen)) continue;
+        if (b.in_check(my)) continue;
+        if (b.attacked(ref::sq_of(2, home), op) || b.attacked(ref::sq_of(3, home), op)) continue;
+        if (b.legal().empty()) continue;
+        return fen;
+    }
+    return "2rkr3/2p1p3/8/8/8/8/P1P5/Rb2K3 w Q - 0 1";
+}
+
+// discovered double check: a knight standing between a rook/queen and the enemy king on a file or rank jumps to a
+// square from which it checks too.  The defender must move the king, and the square behind the king on the slider's line
+// is not a flight square (x-ray).  Returned either with the double check on the board (defender to move) or, when it is
+// mate, one ply earlier (mate in one by double check).
+PosSpec gen_double_check_family(Rng& r)
+{
+    static const int KN[8][2] = {{1, 2}, {2, 1}, {2, -1}, {1, -2}, {-1, -2}, {-2, -1}, {-2, 1}, {-1, 2}};
+    for (int attempt = 0; attempt < 400; ++attempt)
+    {
+        ref::Board b;
+        std::memset(b.sq, 0, sizeof b.sq);
+        b.castling = 0;
+        b.ep = -1;
+        b.halfmove = int(r.below(10));
+        b.fullmove = int(r.range(20, 60));
+        int att = int(r.below(2)), def = 1 - att;
+        bool vertical = r.chance(0.5);
+        // line coordinate l runs along the line, c is the fixed cross coordinate
+        int c = int(r.below(8));
+        int lk = int(r.range(2, 6)), ls, ln;
+        bool from_low = r.chance(0.5);
+        if (from_low) { if (lk < 2) continue; ls = int(r.range(0, lk - 2)); ln = int(r.range(ls + 1, lk - 1)); }
+        else { if (lk > 5) continue; ls = int(r.range(lk + 2, 7)); ln = int(r.range(lk + 1, ls - 1)); }
+        auto sqof = [&](int l) { return vertical ? ref::sq_of(c, l) : ref::sq_of(l, c); };
+        int ksq = sqof(lk), ssq = sqof(ls), nsq = sqof(ln);
+        b.sq[ksq] = ref::mk(def, ref::KIND_K);
+        b.sq[ssq] = ref::mk(att, r.chance(0.6) ? ref::KIND_R : ref::KIND_Q);
+        b.sq[nsq] = ref::mk(att, ref::KIND_N);
+        // attacker king far from the action
+        for (int t = 0; t < 50; ++t)
+        {
+            int q = int(r.below(64));
+            if (b.sq[q]) continue;
+            if (std::abs(ref::file_of(q) - ref::file_of(ksq)) < 3 && std::abs(ref::rank_of(q) - ref::rank_of(ksq)) < 3) continue;
+            b.sq[q] = ref::mk(att, ref::KIND_K);
+            break;
+        }
+        // some furniture: defender men next to their king (fewer flights), a few others anywhere off the line
+        int extra = int(r.range(0, 6));
+        for (int i = 0; i < extra; ++i)
+        {
+            int q = int(r.below(64));
+            if (b.sq[q]) continue;
+            if ((vertical ? ref::file_of(q) : ref::rank_of(q)) == c) continue;
+            int kind = int(r.range(ref::KIND_P, ref::KIND_Q));
+            if (kind == ref::KIND_K) continue;
+            if (kind == ref::KIND_P && (ref::rank_of(q) == 0 || ref::rank_of(q) == 7)) continue;
+            b.sq[q] = ref::mk(r.chance(0.6) ? def : att, kind);
+        }
+        b.side = att;
+        std::string fen = b.fen();
+        if (!fen_is_sane(fen)) continue;
+        if (b.in_check(def) || b.in_check(att)) continue;
+        // knight destinations that check the king
+        std::vector<ref::RMove> cand;
+        for (auto& m : b.legal())
+        {
+            if (m.from != nsq) continue;
+            bool hits = false;
+            for (auto& d : KN)
+                if (ref::file_of(m.to) + d[0] == ref::file_of(ksq) && ref::rank_of(m.to) + d[1] == ref::rank_of(ksq)) hits = true;
+            if (hits) cand.push_back(m);
+        }
+        if (cand.empty()) continue;
+        ref::RMove m = cand[r.below(cand.size())];
+        PosSpec p;
+        p.start_fen = fen;
+        p.game = ref::Game(b);
+        ref::Board t = b;
+        t.make(m);
+        if (!t.in_check(def)) continue;
+        if (!t.legal().empty()) p.game.push(m);  // defender to move, in double check; else: mate in one for the attacker
+        return p;
+    }
+    return gen_evasion_family(r);
+}
+
 PosSpec gen_position(Rng& r, int max_plies, int source_mix)
 {
     PosSpec p;
     // source_mix: 0 = general, 1 = sparse-heavy (endgames / mates), 2 = startpos games only
     if (source_mix != 2 && r.chance(0.06)) return gen_evasion_family(r);
     if (source_mix != 2 && r.chance(0.04)) return gen_castle_lookalike(r);
+    if (source_mix != 2 && r.chance(0.04)) return gen_double_check_family(r);
+    if (source_mix != 2 && r.chance(0.03)) { PosSpec q; q.start_fen = gen_castle_enemy_on_b_file_fen(r); q.game = ref::Game(ref::Board(q.start_fen)); return q; }
     uint64_t pick = r.below(100);
     ref::Board start;
     if (source_mix == 2 || (source_mix == 0 && pick < 45))
